@@ -16,7 +16,7 @@ from .env import SymEnv
 
 VERIF = os.path.dirname(os.path.dirname(os.path.abspath(__file__)))
 REPO = os.environ.get("VERIF_REPO", "/repo")
-PY = os.path.join(VERIF, ".venv", "bin", "python")
+PY = os.path.join(os.environ.get("VERIF_VENV", os.path.join(VERIF, ".venv")), "bin", "python")
 
 EXIT_OK, EXIT_VIOLATION, EXIT_INCONCLUSIVE = 0, 1, 3
 
